@@ -136,15 +136,19 @@ def gen_pred(rng, depth):
         if k < 0.62:
             if CUR["bool_cols"] and rng.random() < 0.5:
                 return ("flag", rng.choice(CUR["bool_cols"]))
-            if CUR["time_cols"] and rng.random() < 0.3:
+            if CUR["time_cols"] and rng.random() < 0.4:
                 # an instant tested against the half-open timespan, also exactly at its begin and its (exclusive) end
-                return ("tin", T0_NS + rng.choice([0, 100, 150, 250, 300, 350, 450, 500, 650, 850, 1000, 1100, 1250]) * 10**6, rng.random() < 0.5)
-            if CUR["time_cols"] and rng.random() < 0.5:
+                return ("tin", T0_NS + rng.choice([0, 100, 150, 250, 300, 350, 450, 500, 650, 850, 1000, 1100, 1250]) * 10**6, rng.random() < 0.5,
+                        rng.choice(["tlit", "tlit", "tbind-astropy", "tbind-datetime"]))
+            if CUR["time_cols"] and rng.random() < 0.6:
                 # times within one second of each other: sub-second resolution matters
+                # the instant as a literal, or bound as an astropy Time (TAI) / a Python datetime (UTC: 37 s behind TAI in 2020)
+                how = rng.choice(["tlit", "tbind-astropy", "tbind-datetime", "tbind-datetime"])
                 return ("cmp", rng.choice(["<", "<=", ">", ">=", "=", "!="]), ("col", rng.choice(CUR["time_cols"])),
-                        ("tlit", T0_NS + rng.choice([0, 100, 250, 300, 350, 500, 600, 750, 850, 1000, 1100]) * 10**6))
+                        (how.split("-")[0], T0_NS + rng.choice([0, 100, 250, 300, 350, 500, 600, 750, 850, 1000, 1100]) * 10**6) + ((how,) if how != "tlit" else ()))
             nullable = [c for c in list(STR_COLS) + CUR["int_cols"] if c not in ("detector", "exposure", "instrument")]
-            return ("isnull", rng.random() < 0.5, ("col", rng.choice(nullable)))
+            # the NULL keyword on either side of the comparison
+            return ("isnull", rng.random() < 0.5, ("col", rng.choice(nullable)), rng.random() < 0.4)
         if k < 0.9:
             items = []
             for _ in range(rng.randint(1, 3)):
@@ -179,9 +183,19 @@ class Render:
             return repr(e[1]) if isinstance(e[1], str) else (f"({e[1]})" if e[1] < 0 else str(e[1]))
         if k == "bind":
             return self.b(e[1])
-        if k == "tlit":
+        if k == "tlit" or (k == "tbind" and self.legacy):
             ns = e[1] - T0_NS
             return f"T'2020-01-01 00:00:{ns // 10**9:02d}.{ns % 10**9:09d}/tai'"
+        if k == "tbind":
+            import datetime
+
+            from astropy.time import Time, TimeDelta
+
+            ns = e[1] - T0_NS
+            if e[2] == "tbind-astropy":
+                return self.b(Time("2020-01-01T00:00:00", scale="tai") + TimeDelta(ns * 1e-9, format="sec", scale="tai"))
+            # the same instant on the UTC clock (TAI - UTC = 37 s since 2017), millisecond steps only
+            return self.b(datetime.datetime(2019, 12, 31, 23, 59, 23) + datetime.timedelta(microseconds=ns // 1000))
         if k == "neg":
             return f"-({self.sc(e[1])})"
         op = {"add": "+", "sub": "-", "mul": "*", "mod": "%"}[k]
@@ -192,11 +206,14 @@ class Render:
         if k == "cmp":
             return f"{self.sc(e[2])} {e[1]} {self.sc(e[3])}"
         if k == "isnull":
+            if len(e) > 3 and e[3] and not self.legacy:
+                return f"NULL {'!=' if e[1] else '='} {self.sc(e[2])}"
             return f"{self.sc(e[2])} {'!=' if e[1] else '='} NULL"
         if k == "flag":
             return e[1]
         if k == "tin":
-            lit = self.sc(("tlit", e[1]))
+            how = e[3] if len(e) > 3 else "tlit"
+            lit = self.sc(("tlit", e[1]) if how == "tlit" else ("tbind", e[1], how))
             return f"{lit} OVERLAPS exposure.timespan" if e[2] else f"exposure.timespan OVERLAPS {lit}"
         if k == "in":
             parts = []
@@ -223,7 +240,7 @@ def tokens(e):
 
     if k == "col":
         return ["col", e[1]]
-    if k in ("lit", "bind", "tlit"):
+    if k in ("lit", "bind", "tlit", "tbind"):
         return ["lit", v(e[1])]
     if k == "flag":
         return ["flag", e[1]]
@@ -262,7 +279,7 @@ def ev_sc(e, row):
     k = e[0]
     if k == "col":
         return row[e[1]]
-    if k in ("lit", "bind", "tlit"):
+    if k in ("lit", "bind", "tlit", "tbind"):
         return e[1]
     if k == "neg":
         x = ev_sc(e[1], row)
@@ -331,8 +348,10 @@ def ev_p(e, row):
     return k_and(a, b) if k == "and" else k_or(a, b)
 
 
-def has(e, kinds):
-    return isinstance(e, tuple) and (e[0] in kinds or any(has(x, kinds) for x in e[1:] if isinstance(x, tuple)))
+def has(e, kinds, name=None):
+    """Does the tree contain a node of one of the kinds (with the given first argument, if one is named)?"""
+    return isinstance(e, tuple) and ((e[0] in kinds and (name is None or (len(e) > 1 and e[1] == name))) or
+                                     any(has(x, kinds, name) for x in e[1:] if isinstance(x, tuple)))
 
 
 def expressions(ctx, model_ok, tmp):
@@ -402,6 +421,15 @@ def expressions(ctx, model_ok, tmp):
                                  "queryDatasets": lambda w, bd, kw: {(r_.dataId["instrument"], r_.dataId["exposure"]) for r_ in
                                                                      b.registry.queryDatasets(dte, collections=["cI", "cJ"], where=w, bind=bd)}}),
     }
+    # a second client of the same repository with a default data ID: the default instrument constrains a query only when the
+    # expression does not mention the instrument itself
+    from lsst.daf.butler import Butler as _Butler
+
+    bdef = _Butler.from_config(os.path.join(tmp, "r"), instrument="I")
+    targets["exposure"]["new"]["query_data_ids@default-instrument-I"] = lambda w, bd, kw: {
+        (d["instrument"], d["exposure"]) for d in bdef.query_data_ids(["exposure"], where=w, bind=bd, explain=False)}
+    targets["exposure"]["new"]["query_datasets@default-instrument-I"] = lambda w, bd, kw: {
+        (r_.dataId["instrument"], r_.dataId["exposure"]) for r_ in bdef.query_datasets(dte, collections=["cI", "cJ"], where=w, bind=bd, explain=False, limit=None)}
     req, impl = [], []
 
     def viol(what, key, replay):
@@ -441,8 +469,13 @@ def expressions(ctx, model_ok, tmp):
         if tname == "exposure" and n >= len(corpus) and rng.random() < 0.4:
             # a governor constraint the legacy interface insists on, in one of its spellings
             gov = rng.choice([("cmp", "=", ("col", "instrument"), ("lit", "I")), ("not", ("cmp", "=", ("col", "instrument"), ("lit", "J"))),
-                              ("in", False, ("col", "instrument"), (("v", "I"),))])
-            e = ("and", gov, e)
+                              ("in", False, ("col", "instrument"), (("v", "I"),)),
+                              # ... and references to the governor that do not pin it to one value (a default data ID must then stay out of it)
+                              ("in", False, ("col", "instrument"), (("v", "I"), ("v", "J"))), ("cmp", "!=", ("col", "instrument"), ("lit", "I")),
+                              ("cmp", "=", ("col", "instrument"), ("lit", "J")), ("not", ("cmp", "=", ("col", "instrument"), ("lit", "I"))),
+                              ("cmp", ">", ("col", "instrument"), ("lit", "I")),
+                              ("or", ("cmp", "=", ("col", "instrument"), ("lit", "I")), ("cmp", "=", ("col", "instrument"), ("lit", "J")))])
+            e = ("and", gov, e) if rng.random() < 0.8 else ("or", gov, e)
         want = {r_["_key"] for r_ in rows if ev_p(e, r_) is True}
         if len(want) in (0, len(rows)):
             constant += 1
@@ -467,7 +500,12 @@ def expressions(ctx, model_ok, tmp):
         g = got_new["query_data_ids"]
         impl.append("".join(("T" if r_["_key"] in g else "?") for r_ in rows) if isinstance(g, set) else "error")
         for api, got in got_new.items():
-            expect = want & spec["with_ds"] if api == "query_datasets" else want
+            expect = want & spec["with_ds"] if api.startswith("query_datasets") else want
+            if api.endswith("@default-instrument-I") and not has(e, ("col",), "instrument"):
+                expect = {k_ for k_ in expect if k_[0] == "I"}
+                ctx.count("default-data-id-applied")
+            elif api.endswith("@default-instrument-I"):
+                ctx.count("default-data-id-not-applied" + (":non-trivial" if any(k_[0] != "I" for k_ in expect) else ""))
             if got is None:
                 continue
             if got != expect:
